@@ -103,11 +103,24 @@ class Graph:
     # ---- output -------------------------------------------------------------------------
     def s_line(self, n, with_seq=True, bo_no=None):
         seq = n.seq if with_seq else "*"
-        cols = ["S", n.id, seq, f"LN:i:{n.ln}", f"SN:Z:{n.contig}", f"SO:i:{n.so}", f"SR:i:{n.rank}"]
+        fi = self._int_text
+        cols = ["S", n.id, seq, f"LN:i:{fi(n.id, 'LN', n.ln)}", f"SN:Z:{n.contig}", f"SO:i:{fi(n.id, 'SO', n.so)}", f"SR:i:{fi(n.id, 'SR', n.rank)}"]
         cols += n.extra
         if bo_no is not None and n.id in bo_no:
             cols += [f"BO:i:{bo_no[n.id][0]}", f"NO:i:{bo_no[n.id][1]}"]
         return "\t".join(cols)
+
+    def _int_text(self, nid, tag, v):
+        """integer fields follow [-+]?[0-9]+ : with self.noncanonical_ints some are written zero-padded
+        or with an explicit '+' (same number, other text; the choice is a function of node and tag)"""
+        style = getattr(self, "sr_style_of_contig", {}).get(self.nodes[nid].contig) if tag == "SR" and nid in self.nodes else None
+        if style:
+            return style.format(v)  # one spelling for all segments of a contig
+        if not getattr(self, "noncanonical_ints", False):
+            return str(v)
+        import zlib
+        h = zlib.crc32(f"{nid}/{tag}".encode()) % 7
+        return {0: f"{v:04d}", 1: f"+{v}", 2: f"0{v}"}.get(h, str(v))
 
     def l_line(self, l):
         a, oa, b, ob, ov, tags = l
